@@ -1255,6 +1255,14 @@ func (tb *TB) divop(op Op, a, b *Term) *Term {
 			}
 		}
 	}
+	// signed division of a value with a known-zero sign bit is unsigned division
+	if (op == OpBvSDiv || op == OpBvSRem) && b.IsConst() && b.val != 0 && b.val>>(uint(w)-1) == 0 && tb.leadingZeroBits(a) >= 1 {
+		if op == OpBvSDiv {
+			op = OpBvUDiv
+		} else {
+			op = OpBvURem
+		}
+	}
 	if b.IsConst() && b.val != 0 && b.val&(b.val-1) == 0 {
 		k := bits.TrailingZeros64(b.val)
 		switch op {
